@@ -15,7 +15,7 @@ import (
 	"time"
 )
 
-const c02Rule = "byte strings from three streams: (a) structure-aware mutations of valid encodings of generated profiles (19 named strategies: length-prefix edits, id 0 / duplicate ids, dangling references, out-of-table string indices, function removed behind a line, duplicated fields, concatenations, value-count edits, wire-type edits, string-table edits, over-long varints, bit flips, truncations, …), (b) random wire-format field soups, (c) legacy inputs: mutated repository test inputs (text: value-level edits of the numeric columns of records and headers — one column 0 / 1 / negative / huge / overflowing while its neighbours stay ordinary, all-but-one zero, all zero — plus line/number/hex edits; binary CPU: word-level edits of nstk/count/header/end marker) and legacy documents of every flavour (heap, heap_v2, heapz_v2, growth, fragmentation, contentionz, mutex, threadz, count, java heapz, java contentionz, binary CPU) printed with every numeric column drawn from the same per-record value patterns; each also wrapped in valid and corrupt gzip. Non-trivial = reaches a mechanism the property anchors: the input is accepted; or the protobuf decoder got far enough to reject it at a bounds/type/string-index/concatenation check; or it parsed and the validity gate rejected it; or a legacy parser recognised the format (accepted or failed inside it). Distinct by input bytes."
+const c02Rule = "byte strings from three streams: (a) structure-aware mutations of valid encodings of generated profiles (19 named strategies: length-prefix edits, id 0 / duplicate ids, dangling references, out-of-table string indices, function removed behind a line, duplicated fields, concatenations, value-count edits, wire-type edits, string-table edits, over-long varints, bit flips, truncations, …), (b) random wire-format field soups, (c) legacy inputs: mutated repository test inputs (text: value-level edits of the numeric columns of records and headers — one column 0 / 1 / negative / huge / overflowing while its neighbours stay ordinary, all-but-one zero, all zero — edits of the trailing memory map (mapping name patterns such as empty / only \"(deleted)\" / \"[\" / bracketed / .so variants / very long / non-UTF-8, permissions, offsets, adjacent, overlapping, inverted and extreme ranges, attribute and log-prefix lines, /proc/maps and brief forms), plus line/number/hex edits; binary CPU: word-level edits of nstk/count/header/end marker) and legacy documents of every flavour (heap, heap_v2, heapz_v2, growth, fragmentation, contentionz, mutex, threadz, count, java heapz, java contentionz, binary CPU) printed with every numeric column drawn from the same per-record value patterns and a generated trailing memory map of the same dimensions; each also wrapped in valid and corrupt gzip. Non-trivial = reaches a mechanism the property anchors: the input is accepted; or the protobuf decoder got far enough to reject it at a bounds/type/string-index/concatenation check; or it parsed and the validity gate rejected it; or a legacy parser recognised the format (accepted or failed inside it). Distinct by input bytes."
 
 // The generated run and every replay execute in a CHILD process with a capped address space:
 // an unrecoverable runtime error of the code under test (stack overflow, out of memory,
@@ -318,9 +318,13 @@ func runC02(c *Ctx) {
 	// (c) legacy
 	textMut := func(doc []byte) ([]byte, string) {
 		switch k := r.Intn(100); {
-		case k < 50: // value-level: numeric columns of records and headers
+		case k < 30: // the trailing memory map: names, permissions, offsets, ranges, attributes
+			return c02MutateMapLines(r, doc), "memory-map"
+		case k < 38:
+			return c02MutateMapLines(r, c02MutateColumns(r, doc)), "columns+memory-map"
+		case k < 65: // value-level: numeric columns of records and headers
 			return c02MutateColumns(r, doc), "columns"
-		case k < 65: // both
+		case k < 75: // both
 			return c02MutateText(r, c02MutateColumns(r, doc)), "columns+text"
 		default:
 			return c02MutateText(r, doc), "text"
